@@ -87,7 +87,9 @@ pub fn cancel_history_at(seed: u64, polls: Option<u64>, thorough: bool, boundari
                     // "retrying without the fault succeeds" with the very same builder value: the faulty attempt is rolled
                     // back inside (nested transaction), the event is the second attempt's
                     ops.push(Op::Build { idx, o: BuildOpts { cancel_at: Some(*n), retry_same_builder: true, ..base.clone() } });
-                    ops.push(Op::Search { idx, seed: rng.gen() });
+                    if k % 12 == 2 {
+                        ops.push(Op::Search { idx, seed: rng.gen() });
+                    }
                     ops.push(Op::Abort);
                     continue;
                 }
@@ -458,7 +460,7 @@ pub fn skewed_history(seed: u64, thorough: bool) -> History {
     let mut rng = StdRng::seed_from_u64(seed);
     let metric = *ALL_METRICS.choose(&mut rng).unwrap();
     let dim = *[2usize, 2, 3, 5].choose(&mut rng).unwrap();
-    let sizes: &[u32] = if thorough { &[24, 60, 150, 400, 900] } else { &[24, 60, 150, 400] };
+    let sizes: &[u32] = if thorough { &[24, 60, 150, 400, 600] } else { &[24, 60, 150, 400] };
     let n = *sizes.choose(&mut rng).unwrap();
     let outliers = (n / rng.gen_range(20..=50)).max(1);
     let centre = (n / 30).max(2);
